@@ -114,12 +114,33 @@ pub fn guarded<T>(f: impl FnOnce() -> T) -> Result<T, (String, String)> {
     LAST_PANIC.with(|p| *p.borrow_mut() = None);
     match catch_unwind(AssertUnwindSafe(f)) {
         Ok(v) => Ok(v),
-        Err(_) => Err(LAST_PANIC.with(|p| p.borrow_mut().take()).unwrap_or_default()),
+        Err(_) => {
+            let (loc, msg) = LAST_PANIC.with(|p| p.borrow_mut().take()).unwrap_or_default();
+            Err((norm_loc(&loc), msg))
+        }
     }
 }
 
+/// Strip the checkout prefix from a panic location so that signatures do not depend on where the
+/// repository copy lives ("/repo/src/x.rs:1" and "/tmp/x/repo/src/x.rs:1" -> "src/x.rs:1").
+pub fn norm_loc(loc: &str) -> String {
+    if is_harness_loc(loc) {
+        return loc.to_string();
+    }
+    if let Some(i) = loc.find("/repo/src/") {
+        return loc[i + 6..].to_string();
+    }
+    if let Some(i) = loc.find("/registry/src/") {
+        let rest = &loc[i + 14..];
+        if let Some(j) = rest.find('/') {
+            return rest[j + 1..].to_string();
+        }
+    }
+    loc.to_string()
+}
+
 pub fn is_harness_loc(loc: &str) -> bool {
-    loc.contains("harness/vp/src") || loc.starts_with("vp/src") || loc.starts_with("src/")
+    loc.contains("harness/vp/src") || loc.starts_with("vp/src")
 }
 
 #[derive(Default)]
